@@ -54,3 +54,4 @@ class AccountIbProtocolEntity(IbProtocolEntity):
             accountNode["creation"],
             accountNode["expiration"]
         )
+        return entity
